@@ -203,7 +203,12 @@ class MHLHistory:
     def renamed_path_with_previous_path(self):
         all_paths = {}
         for hash_list in self.hash_lists:
-            all_paths.update(hash_list.renamed_path_with_previous_path(self.get_root_path()))
+            renamed_in_generation = hash_list.renamed_path_with_previous_path(self.get_root_path())
+            # a path that has been renamed before is followed to its current name (A -> B, later B -> C: A is C now)
+            for old_path, new_path in all_paths.items():
+                if new_path in renamed_in_generation:
+                    all_paths[old_path] = renamed_in_generation[new_path]
+            all_paths.update(renamed_in_generation)
         for child_history in self.child_histories:
             all_paths.update(child_history.renamed_path_with_previous_path())
         return all_paths
